@@ -20,6 +20,8 @@ type World struct {
 	Tag    func() string    // optional per-invocation tag appended to the function id in the log
 	// Memo marks function ids whose *body* memoizes its first result (the reference
 	// model of FuncOnce: an ordinary function that runs its computation once).
+	// Quiet: bodies keep no shared harness state (free-running race pass)
+	Quiet     bool
 	Memo      map[string]bool
 	memoCache map[string][]reflect.Value
 }
@@ -114,6 +116,9 @@ func (w *World) failErr(id string) error {
 }
 
 func (w *World) record(spec FuncSpec, terms []string) {
+	if w.Quiet {
+		return
+	}
 	inv := Invocation{Func: spec.ID}
 	if w.Tag != nil {
 		inv.Func += w.Tag()
